@@ -46,6 +46,8 @@ METHODS = [
     ("type_and_const_generic_method", "fn m{n}<M{n}: From<u8>, const K{n}: usize>(&self, a: [u8; K{n}]) -> [M{n}; K{n}];", False),
     ("impl_trait_arg", "fn m{n}(&self, a: impl Clone) -> u8;", False),
     ("rpitit", "fn m{n}(&self) -> impl Iterator<Item = u8>;", False),
+    ("rpitit_future", "fn m{n}(&self) -> impl core::future::Future<Output = u8>;", False),
+    ("rpitit_future_send", "fn m{n}(&self, a: u8) -> impl core::future::Future<Output = u8> + Send;", False),
     ("async_fn", "async fn m{n}(&self, a: u8) -> u8;", False),
     ("async_borrow", "async fn m{n}<'x>(&'x self, a: &'x u8) -> &'x u8;", False),
     ("async_unit", "async fn m{n}(&self);", False),
